@@ -183,7 +183,7 @@ def flipped_spec(lat, u, tree, ns, res, viol):
     return out, ("as-coded" if as_coded else ("other-digit-order" if ok else None))
 
 
-def evaluate(ctx, cases, label, kmax=9, n_random=6, big_F=200, forced=None):
+def evaluate(ctx, cases, label, kmax=9, n_random=6, big_F=200, forced=None, big_driver_cap=12):
     res = ctx.res
     t_start = time.time()
     jobs, seen = [], set()
@@ -223,6 +223,7 @@ def evaluate(ctx, cases, label, kmax=9, n_random=6, big_F=200, forced=None):
 
     # run the implementation's tree for both settings
     lines, meta = [], []
+    n_big = 0
     for c, arr, lat, key in jobs:
         line, S = ser_lattice_arrays(*arr)
         keys = dist_keys(lat)
@@ -248,13 +249,19 @@ def evaluate(ctx, cases, label, kmax=9, n_random=6, big_F=200, forced=None):
             tt = [] if isinstance(t, Exception) else [int(x) for x in np.asarray(t).ravel()]
             tls.append(ser_list(tt, ser_onat))
         kl = ser_list([int(Fraction(x) * KS) for x in keys], hx)
-        lines.append("span " + line + " " + kl + " " + ser_tables(lat) + " " + tls[0] + " " + tls[1])
-        meta.append((trees, tie))
-    outs = run_driver_parallel(ctx.exe["c14"], lines)
+        # the extracted model works on unary indices: lattices with more than 60 plaquettes go through
+        # the driver only up to a budget; the others get the Python restatement of the tree clause only
+        use_driver = lat.n_plaquettes <= 60 or n_big < big_driver_cap
+        if use_driver and lat.n_plaquettes > 60:
+            n_big += 1
+        if use_driver:
+            lines.append("span " + line + " " + kl + " " + ser_tables(lat) + " " + tls[0] + " " + tls[1])
+        meta.append((trees, tie, use_driver))
+    outs = iter(run_driver_parallel(ctx.exe["c14"], lines))
 
     flip_lines, flip_meta = [], []
     hist = res.extra.setdefault("size_histogram_F", {})
-    for idx, ((c, arr, lat, key), (trees, tie)) in enumerate(zip(jobs, meta)):
+    for idx, ((c, arr, lat, key), (trees, tie, use_driver)) in enumerate(zip(jobs, meta)):
         F, E = lat.n_plaquettes, lat.n_edges
         fam = c["family"] + ("/" + c["base"]["family"] if "base" in c else "")
         res.count(fam, key if F >= 2 else None)
@@ -269,10 +276,12 @@ def evaluate(ctx, cases, label, kmax=9, n_random=6, big_F=200, forced=None):
             res.violation(k, what, case)
 
         good_tree = {}
-        o = outs[idx]
-        if "error" in o:
+        o = next(outs) if use_driver else None
+        if o is None:
+            res.skip("extracted-checkers-and-K-not-run(F>60,budget)")
+        elif "error" in o:
             raise RuntimeError(f"driver error {o['error']} on {c}")
-        if o["agree"][0] != "1":
+        elif o["agree"][0] != "1":
             viol("tables-disagree", "edges.adjacent_plaquettes and the plaquettes' edge lists describe different incidences (C02)", {})
         for j, sso in enumerate((False, True)):
             t = trees[sso]
@@ -282,11 +291,13 @@ def evaluate(ctx, cases, label, kmax=9, n_random=6, big_F=200, forced=None):
             bad = tree_spec(lat, t)
             for k_, what in bad:
                 viol(k_, f"shortest_edges_only={sso}: {what}", {"shortest_edges_only": sso, "tree": [int(x) for x in t]})
+            if not bad:
+                good_tree[sso] = np.asarray(t)
+            if o is None:
+                continue
             ist = o[f"ist{j}"][0] == "1"
             if ist != (not bad):
                 viol("tree-checker", f"shortest_edges_only={sso}: extracted is_spanning_tree = {ist}, Python restatement found {[b_[0] for b_ in bad]}", {"shortest_edges_only": sso})
-            if not bad:
-                good_tree[sso] = np.asarray(t)
             # K: the implementation's run must be a run of the model for SOME candidate order
             # (replay oracle: the implementation's chosen edge is scanned first)
             tl = [int(x) if int(x) >= 0 else None for x in np.asarray(t).ravel()]
@@ -294,7 +305,7 @@ def evaluate(ctx, cases, label, kmax=9, n_random=6, big_F=200, forced=None):
             res.traces += 1
             if ft != tl:
                 ctx.k_mismatch(f"{label}: shortest_edges_only={sso}: the implementation's tree {tl} is not a run of the model (replay on the implementation's tables gives {ft})", {"lattice": c, "shortest_edges_only": sso})
-            elif generic:
+            elif generic and o[f"mftree{j}"][0] != "SKIP":
                 mt = None if o[f"mftree{j}"][0] == "ERR" else onats(o[f"mftree{j}"])
                 if mt != tl:
                     ctx.k_mismatch(f"{label}: shortest_edges_only={sso}: the implementation's tree {tl} is not a run of the model end to end (replay gives {mt})", {"lattice": c, "shortest_edges_only": sso})
@@ -421,7 +432,7 @@ def run(ctx):
     if ctx.tier == "quick":
         evaluate(ctx, cases, "K", kmax=9, n_random=6, big_F=120)
     else:
-        evaluate(ctx, cases, "K", kmax=13, n_random=10, big_F=200)
+        evaluate(ctx, cases, "K", kmax=13, n_random=10, big_F=200, big_driver_cap=60)
 
 
 def search(ctx):
